@@ -494,7 +494,9 @@ func (g *genState) genParamsStep() {
 	case 2:
 		st.A = -1 // not an address
 	case 3:
-		switch g.r.Intn(6) {
+		switch g.r.Intn(7) {
+		case 6:
+			p.CAmt = new(big.Int).Lsh(big.NewInt(1), 255).String() // 256 bits: refused since the 255-bit fix
 		case 0:
 			p.Fee = "0"
 		case 1:
